@@ -1126,6 +1126,10 @@ class Evaluator:
                 return Lst(a.items + b.items)
         if isinstance(a, Const) and isinstance(a.value, str) and isinstance(b, Const) and isinstance(b.value, str) and op == "Add":
             return Const(a.value + b.value)
+        if isinstance(a, V) and isinstance(b, Lst):
+            b = self.lib.as_v(self, b)
+        elif isinstance(b, V) and isinstance(a, Lst):
+            a = self.lib.as_v(self, a)
         if not (isinstance(a, V) and isinstance(b, V)):
             self.note_unmodelled("binop %s on %s,%s" % (op, type(a).__name__, type(b).__name__), node)
             return Top("binop on objects")
